@@ -656,6 +656,11 @@ impl DB {
             }
         }
 
+        // On platforms where an open file can be unlinked, the lock file is removed while the lock
+        // is still held. Otherwise an open that slips in between the unlock and the removal would
+        // hold a lock on a file that no longer has a name and the next open or destroy could lock a
+        // freshly created lock file at the same time.
+        #[cfg(not(unix))]
         drop(db_lock);
 
         log::info!("Deleting database lock file.");
@@ -667,6 +672,9 @@ impl DB {
 
             return Err(RainDBError::Destruction(io_err.to_string()));
         }
+
+        #[cfg(unix)]
+        drop(db_lock);
 
         if let Some(deletion_err) = maybe_deletion_err {
             return Err(RainDBError::Destruction(deletion_err.to_string()));
